@@ -209,6 +209,24 @@ func (e *strEval) eval(v ssa.Value, fr *frame) ([]string, bool) {
 			return e.hole()
 		case *ssa.Global:
 			return e.hole()
+		case *ssa.FieldAddr:
+			// a string field of a local struct that is built up step by step (a statement builder)
+			if vals, ok := e.loadVal[x]; ok {
+				if vals == nil {
+					return e.giveUp("unbounded string field %s", fieldOf(cell).Name())
+				}
+				return vals, true
+			}
+			if base, ok := stripConv(cell.X).(*ssa.Alloc); ok && base.Parent() == fr.fn {
+				e.analyzeCellF(fr, base, cell.Field, nil, false)
+				if vals, ok := e.loadVal[x]; ok {
+					if vals == nil {
+						return e.giveUp("unbounded string field %s", fieldOf(cell).Name())
+					}
+					return vals, true
+				}
+			}
+			return e.hole()
 		}
 		return e.hole()
 	case *ssa.Extract:
@@ -487,7 +505,21 @@ func (m *Model) freeVarBinding(fv *ssa.FreeVar, fr *frame) (ssa.Value, *frame) {
 // (used when analysing a closure whose free variable is the cell).
 // It returns the set of states at the function's exits.
 func (e *strEval) analyzeCell(fr *frame, cell ssa.Value, init []string, hasInit bool) (exit []string, ok bool) {
+	return e.analyzeCellF(fr, cell, -1, init, hasInit)
+}
+
+// analyzeCellF: field >= 0 selects a string field of the struct `cell` points to (a local
+// Alloc, or in a callee the pointer parameter it was passed as); package-local callees that
+// receive the struct's address are analysed recursively.
+func (e *strEval) analyzeCellF(fr *frame, cell ssa.Value, field int, init []string, hasInit bool) (exit []string, ok bool) {
 	fn := fr.fn
+	isAddr := func(v ssa.Value) bool {
+		if field < 0 {
+			return v == cell
+		}
+		fa, ok := v.(*ssa.FieldAddr)
+		return ok && fa.Field == field && stripConv(fa.X) == cell
+	}
 	type state struct {
 		vals []string
 		top  bool
@@ -552,11 +584,11 @@ func (e *strEval) analyzeCell(fr *frame, cell ssa.Value, init []string, hasInit 
 			for _, ins := range b.Instrs {
 				switch x := ins.(type) {
 				case *ssa.Alloc:
-					if x == cell {
+					if ssa.Value(x) == cell {
 						st = state{vals: []string{""}, set: true}
 					}
 				case *ssa.UnOp:
-					if x.Op == token.MUL && x.X == cell {
+					if x.Op == token.MUL && isAddr(x.X) {
 						if st.top {
 							e.loadVal[x] = nil
 						} else {
@@ -564,7 +596,7 @@ func (e *strEval) analyzeCell(fr *frame, cell ssa.Value, init []string, hasInit 
 						}
 					}
 				case *ssa.Store:
-					if x.Addr == cell {
+					if isAddr(x.Addr) {
 						vals, ok := e.eval(x.Val, fr)
 						if !ok {
 							st = state{top: true, set: true}
@@ -583,6 +615,25 @@ func (e *strEval) analyzeCell(fr *frame, cell ssa.Value, init []string, hasInit 
 							// closure params are bound through an inlined frame; note Args excludes the closure itself
 							cfr := &frame{fn: clos, caller: fr, call: x, depth: fr.depth + 1}
 							ex, ok := e.analyzeCell(cfr, clos.FreeVars[idx], st.vals, true)
+							if !ok {
+								st = state{top: true, set: true}
+							} else {
+								st = state{vals: ex, set: true}
+							}
+						}
+					} else if field >= 0 {
+						// the struct's address handed to a package-local function: follow the field there
+						for ai, a := range cc.Args {
+							if stripConv(a) != cell {
+								continue
+							}
+							callee := cc.StaticCallee()
+							if callee == nil || cc.IsInvoke() || !e.m.inPkg(callee) || len(callee.Blocks) == 0 || ai >= len(callee.Params) || fr.depth > 3 || st.top {
+								st = state{top: true, set: true}
+								continue
+							}
+							cfr := fr.inline(x, callee)
+							ex, ok := e.analyzeCellF(cfr, callee.Params[ai], field, st.vals, true)
 							if !ok {
 								st = state{top: true, set: true}
 							} else {
